@@ -32,6 +32,8 @@ var c20fields = []c20field{
 	{"x AS x_8", "x_8", 0, false}, {"x AS x_9", "x_9", 0, false}, {"1 + 2", "", 0, false}, {"(3 * 4)", "", 0, false},
 	// 36-40: names with a percent sign (a name is data, never a format), selectors without arguments
 	{`"cpu%"`, "", 0, false}, {`"load%d"`, "", 0, false}, {`"a%s" + 1`, "", 0, false}, {"top()", "", 0, false}, {"bottom()", "", 0, false},
+	// 41-43: names with capital letters (a clash is a clash of names as written)
+	{"Value", "", 0, false}, {"usageIdle * 2", "", 0, false}, {`"Ärger"`, "", 0, false},
 }
 
 var c20core = []int{0, 1, 2, 3, 4, 5, 6, 7, 15, 16, 18, 22, 23, 26}
@@ -296,7 +298,7 @@ func c20run(r *ev.Run) {
 		long = append(long, l2)
 	}
 	long = append(long, []int{0, 3, 23, 27, 28, 29, 30, 31, 32, 33, 0, 0}, []int{34, 35, 34, 13}, []int{34, 34, 34, 34, 34, 34, 34, 34, 34, 34, 34, 34})
-	long = append(long, []int{36}, []int{36, 36}, []int{37, 37, 37}, []int{36, 37, 36, 37}, []int{38, 38}, []int{39}, []int{40, 0}, []int{39, 40, 39, 17}, []int{0, 39})
+	long = append(long, []int{36}, []int{36, 36}, []int{37, 37, 37}, []int{36, 37, 36, 37}, []int{38, 38}, []int{39}, []int{40, 0}, []int{39, 40, 39, 17}, []int{0, 39}, []int{41, 41}, []int{41, 41, 41, 0}, []int{42, 42}, []int{43, 43, 41}, []int{41, 0, 41})
 	for _, l := range long {
 		for _, into := range []bool{false, true} {
 			for mode := 0; mode < 5; mode++ {
